@@ -122,6 +122,9 @@ type Fn struct {
 	imm      func(path string) bool
 	seenPath map[string]bool
 	pending  []func()
+	// DataSuffix / LenSuffix: a path ending in DataSuffix denotes a byte slice whose length is the path with LenSuffix
+	// instead (type invariant established by the constructor), e.g. ".file.data" / ".file.len".
+	DataSuffix, LenSuffix string
 }
 
 // New prepares a function. immutable reports whether a field path (e.g. "r.file.len") may be treated as one
@@ -178,11 +181,12 @@ func (f *Fn) atom(v ssa.Value) string {
 	return name
 }
 
-// isDataLen: the path denotes the length of the file's content.
-func isFileLenPath(p string) bool {
-	return strings.HasSuffix(p, ".file.len") || strings.HasSuffix(p, "f.len") && false
+func (f *Fn) isFileLenPath(p string) bool {
+	return f.LenSuffix != "" && strings.HasSuffix(p, f.LenSuffix)
 }
-func isFileDataPath(p string) bool { return strings.HasSuffix(p, ".file.data") }
+func (f *Fn) isFileDataPath(p string) bool {
+	return f.DataSuffix != "" && strings.HasSuffix(p, f.DataSuffix)
+}
 
 // LenOf returns the linear expression of len(v) for a slice, string or array-pointer value.
 func (f *Fn) LenOf(v ssa.Value) Expr {
@@ -235,8 +239,8 @@ func (f *Fn) LenOf(v ssa.Value) Expr {
 			}
 		}
 	}
-	if p, ok := fieldPath(v); ok && isFileDataPath(p) {
-		return Atom(strings.TrimSuffix(p, ".data") + ".len") // type invariant File.len == len(File.data)
+	if p, ok := fieldPath(v); ok && f.isFileDataPath(p) {
+		return Atom(strings.TrimSuffix(p, f.DataSuffix) + f.LenSuffix) // type invariant File.len == len(File.data)
 	}
 	a := "len(" + f.atom(v) + ")"
 	if !f.seenPath[a] {
@@ -298,7 +302,7 @@ func (f *Fn) Norm(v ssa.Value) Expr {
 		}
 	}
 	a := f.atom(v)
-	if isFileLenPath(a) && !f.seenPath[a] {
+	if f.isFileLenPath(a) && !f.seenPath[a] {
 		f.seenPath[a] = true
 		f.Axioms = append(f.Axioms, Ge(Atom(a), Const(0), "File.len = len(File.data) >= 0"))
 	}
